@@ -197,6 +197,8 @@ class ModuleImports:
             start, end = stmt.get_old_location()
             after_rewriting.extend(lines[last_index : start - 1])
             if not stmt.import_info.is_empty():
+                if after_rewriting and not after_rewriting[-1].endswith("\n"):
+                    after_rewriting[-1] += "\n"
                 after_rewriting.append(stmt.get_import_statement() + "\n")
             last_index = end - 1
         after_rewriting.extend(lines[last_index:])
@@ -225,7 +227,9 @@ class ModuleImports:
     def _get_new_import_lineno(self):
         if self.imports:
             return self.imports[-1].end_line
-        return 1
+        # below the module's docstring and its leading comments (shebang,
+        # coding line), where the first import would be
+        return self._first_import_line()
 
     def filter_names(self, can_select):
         visitor = actions.RemovingVisitor(
